@@ -144,3 +144,21 @@ Section Sync.
   Fixpoint all_valid (c : list id) (bs : list id) : Prop :=
     match bs with [] => True | b :: r => valid c b = true /\ all_valid (c ++ [b]) r end.
 End Sync.
+
+(* ---------------------------------------------------------------- Syncer.Sync: which mechanism *)
+From Coq Require Import ZArith.
+Inductive method := MFast | MBlock | MNone.
+
+(* shouldFastSync: the absolute height distance (computed in float64, exact for uint32) between the received block and
+   the own tip is at most two rounds and the block's generator is a current validator; otherwise shouldSync: the
+   current slot is more than three rounds past the slot of the finalized block; otherwise nothing is done *)
+Definition abs_diff (a b : N) : N := if (a <=? b)%N then (b - a)%N else (a - b)%N.
+
+Definition choose_sync (own_h block_h n : N) (gen_is_validator : bool) (slot_gap : Z) : method :=
+  if (abs_diff own_h block_h <=? 2 * n)%N && gen_is_validator then MFast
+  else if (3 * Z.of_N n <? slot_gap)%Z then MBlock else MNone.
+
+(* the distance computed as the wrapping uint32 subtraction block - own instead *)
+Definition choose_sync_wrap (own_h block_h n : N) (gen_is_validator : bool) (slot_gap : Z) : method :=
+  if ((block_h + 4294967296 - own_h) mod 4294967296 <=? 2 * n)%N && gen_is_validator then MFast
+  else if (3 * Z.of_N n <? slot_gap)%Z then MBlock else MNone.
